@@ -463,6 +463,17 @@ def run_loaders(c, out):
         ok, r = call(out, "tlt_load(mdoc)", lambda: ioutils.tlt_load("d.mdoc"))
         if ok:
             out.check(close32(r, np.sort(tilts)), "tlt_load:mdoc_tilts_not_ascending", "")
+        # the same unchanged file again, with the other ordering request: what was asked before must not decide the order now
+        ok, _ = call(out, "total_dose_load(mdoc)", lambda: ioutils.total_dose_load("d.mdoc"))
+        ok, r = call(out, "total_dose_load(mdoc)", lambda: ioutils.total_dose_load("d.mdoc", sort_mdoc=False))
+        if ok:
+            out.check(close32(r, expo + prior), "mdoc_dose:unsorted_request_after_sorted_one_not_in_file_order", lambda: f"{np.ravel(r)[:5]} vs {(expo + prior)[:5]}")
+        ok, r = call(out, "tlt_load(mdoc)", lambda: ioutils.tlt_load("d.mdoc", sort_angles=False))
+        if ok:
+            out.check(close32(r, tilts), "tlt_load:mdoc_unsorted_request_after_sorted_one_not_in_file_order", lambda: f"{np.ravel(r)[:5]} vs {tilts[:5]}")
+        ok, r = call(out, "total_dose_load(mdoc)", lambda: ioutils.total_dose_load("d.mdoc", sort_mdoc=True))
+        if ok:
+            out.check(close32(r, (expo + prior)[np.argsort(tilts)]), "mdoc_dose:sorted_request_after_unsorted_one_not_by_tilt", "")
     else:
         U = np.round(rng.uniform(5000, 60000, n), 2)
         V = np.round(U + rng.uniform(-800, 800, n), 2)
